@@ -98,6 +98,56 @@ Theorem C09_end_to_end_multiget : forall us up path0 path mg hs,
 Proof. exact end_to_end_multiget. Qed.
 Print Assumptions C09_end_to_end_multiget.
 
+(** Enumerations.  Whatever the document: a string outside the RFC's value list as
+    test (filter, prop-filter), match-type or negate-condition (text-match of a
+    prop-filter or of a param-filter) is refused with 400 and nothing reaches the
+    backend.  [doc_bad_enum] (CardWireProofs2.v) descends the tree as the decoder does;
+    the invalid side is every other string, not a sample of them. *)
+Theorem C09_enumerations_refused : forall up path d,
+  doc_bad_enum d = true -> handle_report up path d = Err 400.
+Proof. exact server_refuses_invalid_enum. Qed.
+Print Assumptions C09_enumerations_refused.
+
+(** In particular the document the reference writes for a raw request with such a
+    value (which the reference reader rejects: C09_rfc_reads_exactly_conformant). *)
+Theorem C09_enumerations_written_refused : forall up path x,
+  enum_bad x = true -> handle_report up path (rfc_write_raw x) = Err 400.
+Proof. exact server_refuses_written_invalid_enum. Qed.
+Print Assumptions C09_enumerations_written_refused.
+
+(** The valid side: exactly the RFC's values are accepted by the library's
+    UnmarshalText methods, and kept as they are. *)
+Theorem C09_enumerations_valid :
+  (forall v t, val_test (Some v) = Some t -> unmarshal_filter_test v = Ok v /\ v = test_str t) /\
+  (forall v m, val_match (Some v) = Some m -> unmarshal_match_type v = Ok v /\ v = match_str m) /\
+  (forall v x, val_negate (Some v) = Some x -> unmarshal_negate v = Ok x) /\
+  (forall v, val_test (Some v) = None -> unmarshal_filter_test v = Err 400) /\
+  (forall v, val_match (Some v) = None -> unmarshal_match_type v = Err 400) /\
+  (forall v, val_negate (Some v) = None -> unmarshal_negate v = Err 400).
+Proof. exact enumerations_valid. Qed.
+Print Assumptions C09_enumerations_valid.
+
+(** Decoding a request document never panics and fails with 400 only. *)
+Theorem C09_decode_400_only : forall n a k,
+  match unmarshal_query n a k with Ok _ => True | Err c => c = 400%N | Panic => False end.
+Proof. exact o4_unmarshal_query. Qed.
+Print Assumptions C09_decode_400_only.
+
+(** Defaults: an absent test means anyof, an absent match type contains, an absent
+    negate-condition no - in the reference, in the public API's zero values, and on the
+    way to the backend, where both spellings arrive as the same call. *)
+Theorem C09_defaults :
+  val_test None = Some AnyOf /\ val_match None = Some Contains /\ val_negate None = Some false /\
+  den_test "" = Some AnyOf /\ den_match "" = Some Contains /\
+  (forall s, val_tm (mkXT s None None) = val_tm (mkXT s (Some "no") (Some "contains"))) /\
+  (forall n c, val_pf (mkXF n None c) = val_pf (mkXF n (Some "anyof") c)) /\
+  (forall sel fs l, val_query (mkXQ sel None fs l) = val_query (mkXQ sel (Some "anyof") fs l)) /\
+  (forall up path x r c,
+     validate x = Some r -> limit_fits r = true -> backend_call_of up path r = Some c ->
+     exists o, handle_report up path (rfc_write_raw x) = Ok o /\ canon_outcome o = c).
+Proof. exact defaults. Qed.
+Print Assumptions C09_defaults.
+
 (** Known finding C09-nsdecl-as-attribute: the hypothesis [collides d = false] is
     needed.  Two conformant documents (lexical variants of written requests) on which
     the server does what the model says and not what the document denotes: one is
